@@ -1,7 +1,6 @@
 // ---- C11: compositionality laws, stated from the property text over the relation that the real `interpret`
 // is proved to satisfy (contract `evals` of unit interp).  No law looks inside a sub-derivation, so each holds
 // for parts that contain function calls too.
-pub open spec fn evals(rt: &Runtime, node: Ast, d: Variable, r: Variable) -> bool { exists|w: W| evals_w(rt, node, d, r, w) }
 
 //# pipe-law [C11]
 // searching '(L) | (R)' (and 'L.R') equals searching R on the result of searching L
